@@ -104,6 +104,15 @@ CHECKS["C07"] = ("exploration",
     "tree are known findings keyed by mechanism, any other size violation is reported.",
     "DESIGN.md §3 C07")
 
+CHECKS["C10"] = ("exploration",
+    "runtime structural monitor: independent walk of the fitted node objects; decision_path rows must be "
+    "root-to-terminal chains following each node's probability, predict_proba must be the terminal classifier's "
+    "probabilities (also on exact-tie rows), indices / leaves / depth invariants",
+    "Every row of the training set (where fit_improve creates exact ties) and of a fresh batch is checked against "
+    "an independent traversal of the node objects for generated binary problems, five label domains, three base "
+    "estimators and all fit_improve_algo values.",
+    "DESIGN.md §3 C10")
+
 PENDING = {}
 
 
